@@ -152,11 +152,11 @@ func (s *Sys) fixtureDB() {
 	}
 	if s.conf.Fixture == "released-schema+lease" {
 		mac := "02:ff:00:00:00:00"
-		if _, err := db.Exec("insert or replace into leases4(mac, ip, expiry, hostname) values (?, ?, ?, ?)", mac, s.conf.Start, time.Now().Add(24*time.Hour).Unix(), "old"); err != nil {
+		if _, err := db.Exec("insert or replace into leases4(mac, ip, expiry, hostname) values (?, ?, ?, ?)", mac, s.conf.Start, verifsched.Now().Add(24*time.Hour).Unix(), "old"); err != nil {
 			panic(err)
 		}
 		s.first["02ff00000000"] = s.conf.Start
-		s.prom["02ff00000000"] = time.Now()
+		s.prom["02ff00000000"] = verifsched.Now()
 	}
 }
 
@@ -327,6 +327,11 @@ func (s *Sys) Apply(op Op, live bool) (obs string) {
 		if err := s.inst.VerifAge(d); err != nil {
 			panic(err)
 		}
+		if os.Getenv("VERIF_SCHED") == "1" {
+			// the instrumented plugin reads the clock through the scheduler: whatever it keeps
+			// in memory about "when" (not only the stored expiries) sees the time pass as well
+			verifsched.AdvanceGlobal(d)
+		}
 		for m := range s.first {
 			if op.Dur == "" {
 				s.aged[m] = true
@@ -437,7 +442,7 @@ func (s *Sys) Apply(op Op, live bool) (obs string) {
 	} else {
 		close(unlocked)
 	}
-	tBefore := time.Now()
+	tBefore := verifsched.Now() // the plugin's clock: real time + the virtual time that has passed
 	var out *dhcpv4.DHCPv4
 	var stop bool
 	pan := func() (p string) {
@@ -446,6 +451,7 @@ func (s *Sys) Apply(op Op, live bool) (obs string) {
 				p = fmt.Sprint(e)
 			}
 		}()
+		defer verifsched.HoldClock()()
 		defer reg.OpBegin(fmt.Sprintf("range %s-%s: %s from %s after %d ops", s.conf.Start, s.conf.End, op.Kind, op.MAC, len(s.hist)-1))()
 		if s.conf.PreLease {
 			resp, _ = preLeaseHandler()(req, resp)
